@@ -17,6 +17,7 @@ import (
 
 	"github.com/ory/keto/internal/driver/config"
 	"github.com/ory/keto/internal/namespace"
+	"github.com/ory/keto/internal/relationtuple"
 )
 
 // C19 – namespace configuration reloads are keep-last-good and never partial
@@ -58,6 +59,7 @@ type simVersion struct {
 	Valid   bool
 	Names   []string // namespaces the version denotes (valid versions)
 	Kind    string
+	Serial  int
 }
 
 type simFile struct {
@@ -82,15 +84,25 @@ func (f *simFile) mkVersion(t *Tape, kind string) simVersion {
 	name := fmt.Sprintf("%sV%d", f.Prefix, f.Serial)
 	switch f.Format {
 	case "opl":
+		// every valid version also declares the STABLE namespace <prefix>S whose
+		// permission p means "member" in even versions and "not member" in odd
+		// ones: a check through the real engine tells which version the engine
+		// is deciding by (a stale copy of an older version shows up as a wrong answer)
+		stable := f.Prefix + "S"
+		perm := "this.related.m.includes(ctx.subject)"
+		if f.Serial%2 == 1 {
+			perm = "!this.related.m.includes(ctx.subject)"
+		}
+		stableClass := fmt.Sprintf("class %s implements Namespace {\n  related: { m: %s[] }\n  permits = { p: (ctx: Context): boolean => %s }\n}\n", stable, stable, perm)
 		switch kind {
 		case "valid":
 			if t.Bool(1, 3) {
 				n2 := name + "b"
-				return simVersion{Kind: kind, Valid: true, Names: []string{name, n2},
-					Content: fmt.Sprintf("class %s implements Namespace {\n  related: {\n    r%d: %s[]\n  }\n}\nclass %s implements Namespace {\n  related: { m: %s[] }\n  permits = { p: (ctx: Context): boolean => this.related.m.includes(ctx.subject) }\n}\n", name, f.Serial, name, n2, name)}
+				return simVersion{Kind: kind, Valid: true, Names: []string{stable, name, n2}, Serial: f.Serial,
+					Content: fmt.Sprintf("class %s implements Namespace {\n  related: {\n    r%d: %s[]\n  }\n}\nclass %s implements Namespace {\n  related: { m: %s[] }\n  permits = { p: (ctx: Context): boolean => this.related.m.includes(ctx.subject) }\n}\n", name, f.Serial, name, n2, name) + stableClass}
 			}
-			return simVersion{Kind: kind, Valid: true, Names: []string{name},
-				Content: fmt.Sprintf("class %s implements Namespace {\n  related: {\n    r%d: %s[]\n  }\n}\n", name, f.Serial, name)}
+			return simVersion{Kind: kind, Valid: true, Names: []string{stable, name}, Serial: f.Serial,
+				Content: fmt.Sprintf("class %s implements Namespace {\n  related: {\n    r%d: %s[]\n  }\n}\n", name, f.Serial, name) + stableClass}
 		case "syntax":
 			return simVersion{Kind: kind, Content: fmt.Sprintf("class %s implements Namespace {\n  related: {\n    r: \n", name)}
 		case "type":
@@ -251,6 +263,29 @@ func runC19(env *Env, rc *RunCtx) {
 		}
 		files = append(files, f)
 	}
+	var engineTuples map[string]*relationtuple.RelationTuple
+	if strings.HasPrefix(kind, "opl") {
+		// one stored relationship per file in its stable namespace, written while a
+		// plain configuration that knows these namespaces is installed
+		env.Wipe()
+		boot := &Config{Enc: EncNone}
+		for _, f := range files {
+			boot.NS = append(boot.NS, &NSDef{Name: f.Prefix + "S"})
+		}
+		env.UseConfigCached(boot, Limits{Depth: 5, Width: 100})
+		engineTuples = map[string]*relationtuple.RelationTuple{}
+		for _, f := range files {
+			w := Tuple{NS: f.Prefix + "S", Obj: "o", Rel: "m", Sub: Subject{ID: "u"}}
+			if err := env.Load([]Tuple{w}); err != nil {
+				env.T.Fatalf("harness: %v", err)
+			}
+			its, err := env.Internal(Tuple{NS: f.Prefix + "S", Obj: "o", Rel: "p", Sub: Subject{ID: "u"}})
+			if err != nil {
+				env.T.Fatalf("harness: %v", err)
+			}
+			engineTuples[f.Prefix] = its[0]
+		}
+	}
 	if strings.HasPrefix(kind, "opl") {
 		m = config.VerifNewOPLWatcher(cfg, "file:///sim/namespaces")
 	} else {
@@ -321,7 +356,7 @@ func runC19(env *Env, rc *RunCtx) {
 				for _, f := range files {
 					var vis []string
 					for _, n := range names {
-						if strings.HasPrefix(n, f.Prefix+"V") {
+						if strings.HasPrefix(n, f.Prefix+"V") || n == f.Prefix+"S" {
 							vis = append(vis, n)
 						}
 					}
@@ -363,6 +398,26 @@ func runC19(env *Env, rc *RunCtx) {
 							map[string]any{"history": hist, "visible": names, "manager": kind, "files": len(files)}, -1, nil)
 						return false
 					}
+					// the check engine decides by the version that is visible
+					if engineTuples != nil && inFlightFile == nil && len(vis) > 0 {
+						for _, v := range allowed {
+							if fmt.Sprint(v.Names) != fmt.Sprint(vis) || v.Serial == 0 {
+								continue
+							}
+							if it, okT := engineTuples[f.Prefix]; okT {
+								res := env.Reg.PermissionEngine().CheckRelationTuple(ctx, it, 0)
+								want := v.Serial%2 == 0
+								got := res.Err == nil && res.Membership.String() == "IsMember"
+								rc.Count("engine_checks", 1)
+								if res.Err != nil || got != want {
+									viol = rc.Violate("engine-decides-by-stale-version", kind, fmt.Sprintf("%s: version %d of %s is visible (p means %s), but the check engine answered allowed=%v err=%v", when, v.Serial, f.Path, map[bool]string{true: "member", false: "not member"}[want], got, res.Err),
+										map[string]any{"history": hist, "visible": names, "manager": kind}, -1, nil)
+									return false
+								}
+							}
+							break
+						}
+					}
 					// the lookups used by the engine agree with the listing
 					for _, n := range vis {
 						if _, err := m.GetNamespaceByName(ctx, n); err != nil {
@@ -375,7 +430,7 @@ func runC19(env *Env, rc *RunCtx) {
 				for _, n := range names {
 					found := false
 					for _, f := range files {
-						if strings.HasPrefix(n, f.Prefix+"V") {
+						if strings.HasPrefix(n, f.Prefix+"V") || n == f.Prefix+"S" {
 							found = true
 						}
 					}
@@ -605,7 +660,7 @@ func runC19(env *Env, rc *RunCtx) {
 				}
 				var vis []string
 				for _, n := range names {
-					if strings.HasPrefix(n, f.Prefix+"V") {
+					if strings.HasPrefix(n, f.Prefix+"V") || n == f.Prefix+"S" {
 						vis = append(vis, n)
 					}
 				}
